@@ -1387,7 +1387,9 @@ func bindHeaderNames(st *State, header *ssa.BasicBlock) {
 			if !ok || d.IsAddr {
 				continue
 			}
-			if id, ok := d.Expr.(*ast.Ident); ok {
+			// only the range key itself (its defining occurrence), not another
+			// variable that is assigned the index (`last = i`)
+			if id, ok := d.Expr.(*ast.Ident); ok && d.Object() != nil && d.Object().Pos() == id.Pos() {
 				st.names[id.Name] = &Term{s, pv.Sort, pv.T}
 			}
 		}
